@@ -398,18 +398,35 @@ func marshalStructWithMap[T any](s *T, mapField string) ([]byte, error) {
 // Here jsonNames also returns fields from embedded structs, hence this function
 // handles embedded structs as well.
 func unmarshalStructWithMap[T any](data []byte, v *T, mapField string) error {
-	// Unmarshal into the struct, ignoring unknown fields.
-	if err := json.Unmarshal(data, v); err != nil {
+	// Split the object into the members that name a field of the struct and the rest.
+	// encoding/json matches struct fields case-insensitively, but JSON Schema keywords
+	// are case-sensitive: only members whose name is exactly a field's JSON name may
+	// reach the struct; all others belong in the map.
+	var raw map[string]json.RawMessage
+	if err := json.Unmarshal(data, &raw); err != nil {
 		return err
 	}
-	// Unmarshal into the map.
+	names := jsonNames(reflect.TypeFor[T]())
+	known := make(map[string]json.RawMessage, len(raw))
 	m := map[string]any{}
-	if err := json.Unmarshal(data, &m); err != nil {
+	for k, val := range raw {
+		if names[k] {
+			known[k] = val
+			continue
+		}
+		var x any
+		if err := json.Unmarshal(val, &x); err != nil {
+			return err
+		}
+		m[k] = x
+	}
+	// Unmarshal the known members into the struct.
+	knownData, err := json.Marshal(known)
+	if err != nil {
 		return err
 	}
-	// Delete from the map the fields of the struct.
-	for n := range jsonNames(reflect.TypeFor[T]()) {
-		delete(m, n)
+	if err := json.Unmarshal(knownData, v); err != nil {
+		return err
 	}
 	if len(m) != 0 {
 		reflect.ValueOf(v).Elem().FieldByName(mapField).Set(reflect.ValueOf(m))
